@@ -72,6 +72,14 @@ CHECKS["C10"] = dict(
    note="Trusted: generator/SeedSequence/pool contracts of symx.env (bit-level PCG64 and real process pools outside), kernel and prior.sample contract stubs inside the sampler harness.",
    technique="symbolic execution of the real Python source with effect logging (paths enumerated by z3); candidates replayed as equal-seed twin runs on the real build",
    ref="3/C10")
+CHECKS["C13"] = dict(
+   category="model_checking",
+   text="Crash points as a symbolic variable: one symbolic integer 'the k-th environment call of this run fails' is consulted by every stubbed environment call (temp-file creation, cache write, tables/h5py opens, header access, table reads, pool.map, each worker, kernel calls, unlink, validation) "
+        "while the real tempfile_decorator / helpers / TheJoker entry points run on a file-system model; the explorer forks on it, so every crash point of every feasible path is covered (<=1 fault per run). Per path: the fault reaches the caller, no cache file of the call exists afterwards, the user's file is never opened for writing / unlinked / changed, "
+        "and a second call on the same TheJoker returns correct results (pool still usable, nothing left behind). Entries: marginal, rejection, iterative x file name / object / in-memory.",
+   note="Trusted: file-system/HDF5/pool contracts of symx.env (closed pools refuse map); hard process death and crashes inside real worker processes outside; unlink failing itself is exempt from the no-leak claim.",
+   technique="symbolic fault-point exploration of the real Python source over an environment model (z3-enumerated paths); candidates replayed by monkey-patching the real function at the model's invocation index",
+   ref="3/C13")
 NOT_YET = {}
 ALL = ["C%02d" % i for i in range(1, 20)]
 
